@@ -16,6 +16,8 @@ is a comment line.  See DESIGN.md Appendix C.
      <verus statements>
   @assume_pre[tags] <expr>               trait-impl methods cannot carry `requires`: the body starts with `assume(expr)` and
                                          every ensures becomes `expr ==> ...`; each call site must assert expr (listed assumption)
+  @assume_inv[tags] <expr>               type invariant of a parameter established elsewhere (e.g. by a Kani-proved constructor):
+                                         the body starts with `assume(expr)`, ensures are NOT weakened (listed assumption)
   @attr <text>                           extra attribute on the fn, e.g. #[verifier::rlimit(50)]
   @end
   @drop <path-prefix>                    drop items whose path starts with this
@@ -54,6 +56,7 @@ class FnSpec:
         self.proofs = []
         self.attrs = []
         self.assume_pre = []
+        self.assume_inv = []
         self.used = False
 
 
@@ -133,6 +136,8 @@ def parse(paths):
                     fn.requires.append(Clause("requires", tags if tags is not None else fn.props, rest, where))
                 elif d == "ensures":
                     fn.ensures.append(Clause("ensures", tags if tags is not None else fn.props, rest, where))
+                elif d == "assume_inv":
+                    fn.assume_inv.append(Clause("assume_inv", tags if tags is not None else fn.props, rest, where))
                 elif d == "assume_pre":
                     fn.assume_pre.append(Clause("assume_pre", tags if tags is not None else fn.props, rest, where))
                 elif d == "attr":
